@@ -8,16 +8,20 @@ import time
 from vlib import live
 
 
-def gen_spec(rnd, nsteps=6):
+def gen_spec(rnd, nsteps=6, stop_heavy=False):
     ws = []
     for i, name in enumerate(rnd.sample(['a', 'b'], rnd.randint(1, 2))):
-        kind = rnd.choice(['obedient', 'slow', 'stubborn', 'slow'])
+        kind = rnd.choice(['obedient', 'slow', 'stubborn', 'slow'] if not stop_heavy else
+                          ['stubborn', 'stubborn', 'slow', 'obedient'])
         ws.append({'name': name, 'np': rnd.randint(1, 3), 'gt': rnd.choice([0.6, 1.0]), 'kind': kind,
                    'stop_signal': rnd.choice(['TERM', 'TERM', 'INT', 'USR1'])})
     steps = []
     for _ in range(nsteps):
         k = rnd.choice(['incr', 'decr', 'extkill', 'extterm', 'restart', 'reload', 'reloadseq', 'stop-start', 'kill',
                         'extkill'])
+        if stop_heavy and rnd.random() < .5:
+            # stop, then things that must not start a worker for a stopped watcher, then start again
+            k = rnd.choice(['stop-poke-start', 'stop-poke-start', 'stop-start', 'kill-then-stop-start'])
         steps.append([k, rnd.choice(ws)['name'], rnd.randint(0, 3)])
     return {'watchers': ws, 'steps': steps}
 
@@ -54,11 +58,54 @@ def worker_table(d):
     return out
 
 
-def run(spec, strace=True):
+class _DaemonDead(Exception):
+    pass
+
+
+def run(spec, strace=True, probe=False):
     """-> record dict; raises nothing for daemon problems: rec['problem'] says what went wrong"""
+    import threading
     import zmq
-    rec = {'points': [], 'events': [], 'steps_done': [], 'problem': None, 'kills': [], 'ext': []}
+    rec = {'points': [], 'events': [], 'steps_done': [], 'problem': None, 'kills': [], 'ext': [], 'calls': [],
+           'probes': []}
     d = live.Daemon('', strace=strace)
+    orig_call = d.call
+
+    def timed_call(command, timeout=5.0, **props):
+        t0 = time.time()
+        r = orig_call(command, timeout=timeout, **props)
+        if command not in ('status', 'list', 'numprocesses', 'stats'):
+            rec['calls'].append((command, props.get('name'), t0, time.time() - t0, r.get('status'), str(r.get('reason'))[:80],
+                                 timeout))
+        if r.get('status') == 'CallError' and 'Timed out' in str(r.get('reason')) and timeout >= 15 and not rec.get('dead'):
+            # the daemon does not answer any more: the rest of the history would only wait for more timeouts
+            rec['dead'] = '%s %s unanswered after %.0fs' % (command, props.get('name'), timeout)
+            if command == 'stop':
+                rec.setdefault('stops', []).append((props.get('name'), time.time(), 'CallError: Timed out',
+                                                    dict(worker_table(d)), []))
+            raise _DaemonDead()
+        return r
+    d.call = timed_call
+    stop_probe = threading.Event()
+
+    def prober():
+        # a second client asking a read-only question every 100 ms for the whole history
+        from circus.client import CircusClient
+        from circus.exc import CallError
+        c = CircusClient(endpoint=d.endpoint, timeout=20.0)
+        try:
+            while not stop_probe.is_set():
+                t0 = time.time()
+                try:
+                    r = c.call({'command': 'numwatchers', 'properties': {}})
+                    rec['probes'].append((t0, time.time() - t0, r.get('status')))
+                except CallError as e:
+                    rec['probes'].append((t0, time.time() - t0, 'CallError: %s' % e))
+                    break
+                stop_probe.wait(0.1)
+        finally:
+            c.stop()
+    pth = threading.Thread(target=prober, daemon=True)
     d.ini = ini_for(d, spec).replace('@DIR@', d.dir).replace('@LOG@', d.logdir)
     with open(d.ini_path, 'w') as f:
         f.write(d.ini)
@@ -125,39 +172,59 @@ def run(spec, strace=True):
             pt['proc2'] = worker_table(d)
             rec['points'].append(pt)
 
-        for w in spec['watchers']:
-            d.call('start', name=w['name'], waiting=True, timeout=15)
-        quiesce('after start')
-        for st in spec['steps']:
-            kind, name, idx = st
-            pids = d.call('list', name=name).get('pids') or []
-            t = time.time()
-            if kind == 'incr':
-                d.call('incr', name=name, waiting=True, timeout=15)
-            elif kind == 'decr':
-                d.call('decr', name=name, waiting=True, timeout=15)
-            elif kind in ('extkill', 'extterm') and pids:
-                p = pids[idx % len(pids)]
-                sig = 9 if kind == 'extkill' else 15
-                try:
-                    os.kill(p, sig)
-                    rec['ext'].append((time.time(), p, sig, name))
-                except OSError:
-                    pass
-            elif kind == 'restart':
-                d.call('restart', name=name, waiting=True, timeout=20)
-            elif kind == 'reload':
-                d.call('reload', name=name, waiting=True, timeout=20)
-            elif kind == 'reloadseq':
-                d.call('reload', name=name, sequential=True, waiting=True, timeout=30)
-            elif kind == 'stop-start':
-                d.call('stop', name=name, waiting=True, timeout=20)
-                quiesce('after stop %s' % name)
-                d.call('start', name=name, waiting=True, timeout=20)
-            elif kind == 'kill':
-                d.call('kill', name=name, waiting=True, timeout=20)
-            rec['steps_done'].append((t, kind, name))
-            quiesce('after %s %s' % (kind, name))
+        try:
+            if probe:
+                pth.start()
+            for w in spec['watchers']:
+                d.call('start', name=w['name'], waiting=True, timeout=15)
+            quiesce('after start')
+            for st in spec['steps']:
+                kind, name, idx = st
+                pids = d.call('list', name=name).get('pids') or []
+                t = time.time()
+                if kind == 'incr':
+                    d.call('incr', name=name, waiting=True, timeout=15)
+                elif kind == 'decr':
+                    d.call('decr', name=name, waiting=True, timeout=15)
+                elif kind in ('extkill', 'extterm') and pids:
+                    p = pids[idx % len(pids)]
+                    sig = 9 if kind == 'extkill' else 15
+                    try:
+                        os.kill(p, sig)
+                        rec['ext'].append((time.time(), p, sig, name))
+                    except OSError:
+                        pass
+                elif kind == 'restart':
+                    d.call('restart', name=name, waiting=True, timeout=20)
+                elif kind == 'reload':
+                    d.call('reload', name=name, waiting=True, timeout=20)
+                elif kind == 'reloadseq':
+                    d.call('reload', name=name, sequential=True, waiting=True, timeout=30)
+                elif kind in ('stop-start', 'stop-poke-start', 'kill-then-stop-start'):
+                    if kind == 'kill-then-stop-start':
+                        d.call('kill', name=name)           # not waiting: the stop arrives inside its grace period
+                        time.sleep(0.1)
+                    rs = d.call('stop', name=name, waiting=True, timeout=30)
+                    rec.setdefault('stops', []).append((name, time.time(), rs.get('status'), dict(worker_table(d)), pids))
+                    if kind == 'stop-poke-start':
+                        # none of these may start a worker for the stopped watcher
+                        for poke in (('incr', {}), ('decr', {}), ('set', {'options': {'numprocesses': 2}}),
+                                     ('set', {'options': {'graceful_timeout': 0.7}})):
+                            if (idx + len(poke[0])) % 2 == 0:
+                                d.call(poke[0], name=name, **poke[1])
+                        for p in pids[:1]:
+                            try:
+                                os.kill(p, 0)
+                            except OSError:
+                                pass
+                    quiesce('after stop %s' % name)
+                    d.call('start', name=name, waiting=True, timeout=20)
+                elif kind == 'kill':
+                    d.call('kill', name=name, waiting=True, timeout=20)
+                rec['steps_done'].append((t, kind, name))
+                quiesce('after %s %s' % (kind, name))
+        except _DaemonDead:
+            pass
         drain()
         rec['kills'] = live.kill_lines(d.strace_lines())
         rec['worker_signals'] = {}
@@ -165,9 +232,17 @@ def run(spec, strace=True):
             if f.endswith('.sig'):
                 rec['worker_signals'][int(f[:-4])] = [ln.split() for ln in open(os.path.join(d.logdir, f)).read().splitlines()]
         rec['daemon_pid'] = d.pid
-        d.call('quit', timeout=20)
-        d.wait_exit(25)
+        stop_probe.set()
+        if probe:
+            pth.join(25)
+        if not rec.get('dead'):
+            try:
+                d.call('quit', timeout=20)
+            except _DaemonDead:
+                pass
+            d.wait_exit(25)
     finally:
+        stop_probe.set()
         sub.close()
         ctx.destroy(linger=0)
         d.cleanup()
@@ -302,3 +377,60 @@ def judge_kill_timing(rec, res, spec):
                           % (pid, want, [s for _, s in sigs]))
         if first == want and kills and w['kind'] == 'obedient':
             res.violation('C03/live:sigkill-after-exit', 'worker %d exits at once on %s yet the daemon sent SIGKILL' % (pid, want))
+
+
+def judge_stop(rec, res, spec):
+    """C02 on the real process table: when the stop request has been answered, every worker the watcher had is gone
+    (not even a zombie child of the daemon) and the watcher reports stopped with zero processes; nothing starts a
+    worker for it until the start request"""
+    for name, t, status, table, pids_before in rec.get('stops', []):
+        res.obs['live_stops_judged'] += 1
+        if status != 'ok':
+            res.violation('C02/live:stop-not-answered-ok', 'stop %s answered %s' % (name, status))
+            continue
+        left = {p: v for p, v in table.items() if v[0] == name}
+        if left:
+            res.violation('C02/live:worker-present-when-stop-answered',
+                          'right after stop %s was answered ok the daemon still has children %s (pid: tag, state, '
+                          'starttime)' % (name, left))
+    for pt in rec['points']:
+        if not pt['label'].startswith('after stop '):
+            continue
+        n = pt['label'][len('after stop '):]
+        rp = pt['reported'].get(n)
+        if rp is None:
+            continue
+        res.obs['live_stopped_windows_judged'] += 1
+        here = {p for p, (tag, st, _) in list(pt['proc'].items()) + list(pt['proc2'].items()) if tag == n}
+        if rp['status'] != 'stopped' or rp['pids'] or rp['numprocesses'] not in (0, None) or here:
+            res.violation('C02/live:not-stopped-until-start',
+                          'about 1.5 s (5 check periods) after stop %s, with incr/decr/set requests in between: status %s, '
+                          'pids %s, numprocesses %s, children in /proc %s'
+                          % (n, rp['status'], rp['pids'], rp['numprocesses'], sorted(here)))
+
+
+def judge_latency(rec, res, spec):
+    """C05 on the wall clock, with thresholds far above every bound of the workload (graceful_timeout <= 1 s, at most
+    4 workers, warmup 0): read-only probes are answered at once even during long operations, waiting requests end"""
+    gaps = [dt for _, dt, st in rec['probes']]
+    res.obs['live_probes'] += len(gaps)
+    if gaps:
+        res.hist['live_probe_latency_ms'][int(max(gaps) * 1000) // 100 * 100] += 1
+    for t0, dt, st in rec['probes']:
+        if st != 'ok':
+            res.violation('C05/live:read-only-probe-unanswered', 'numwatchers probe sent %.1fs into the history got %s '
+                          'after %.1fs' % (t0 - rec.get('t0', t0), st, dt))
+            break
+        if dt > 12.0:
+            res.violation('C05/live:read-only-probe-delayed', 'numwatchers probe answered after %.1fs (operations in '
+                          'this workload are bounded by a few seconds)' % dt)
+            break
+        if dt > 4.0:
+            res.inconclusive.append('live: a read-only probe took %.1fs (loaded machine?)' % dt)
+            break
+    for cmd, name, t0, dt, st, reason, timeout in rec['calls']:
+        res.obs['live_calls'] += 1
+        res.hist['live_call_seconds:' + cmd][int(dt)] += 1
+        if st == 'CallError' and 'Timed out' in reason:
+            res.violation('C05/live:request-never-answered', '%s %s was not answered within %.0fs (graceful_timeout <= 1 s, '
+                          '<= 4 workers)' % (cmd, name, timeout))
